@@ -22,7 +22,8 @@ EXPLANATION = (
     "class (0..3: N=4, 0..5: N=3, 0..15: N=2) plus unpackable strings - one full tuple, every shorter trailing tuple, a full tuple "
     "followed by a trailing symbol: unpack(pack(x)) = x, no assert trips, and pack(x) equals the AGC v3 packing computed from the "
     "format rule (big-endian base-MAX digits, low-aligned trailing tuple, marker (N<<4)|(len%N)); longer strings repeat the same "
-    "per-tuple step (TP3: both loops advance by N / one tuple and carry nothing else).  ZSTD is trusted.")
+    "per-tuple step (TP3: both loops advance by N / one tuple and carry nothing else).  (LAYER) the whole reference-segment layer - repetitiveness test, "
+    "packer, marker, unpacker - is interpreted over a finite domain through both arms with the ZSTD pair as identity.  ZSTD is trusted.")
 UNDECIDED = "tuple packing of strings longer than one tuple plus a trailing part beyond the structural step clauses of TP3 (the per-tuple arithmetic itself is decided exhaustively by TP4); ZSTD losslessness and context reuse"
 
 TP = "ragc_core::tuple_packing::"
